@@ -51,18 +51,42 @@ class C07(CompSpec):
             out += [{"fn": "comp.c07:chunk", "args": {"scope": "f3", "chunk": c, "nchunks": 56, "dry_every": 4}} for c in range(56)]
             out += [{"fn": "comp.c07:chunk", "args": {"scope": "n4", "chunk": c, "nchunks": 280, "dry_every": 8}} for c in range(280)]
             out += [{"fn": "comp.c07:chunk", "args": {"scope": "random", "seed": sub_seed(seed, c, "C07r"), "count": 900, "dry_every": 4}} for c in range(56)]
+        # whole simulated submissions, half of them followed by resubmit-jobs: the same per-batch oracle judges every batch handed
+        # to the simulated sbatch in later rounds and in resubmissions (blockers = the ones that are rerun)
+        from checks_sim import sim_task
+        from sim import scenario
+
+        for k in range({"quick": 60, "thorough": 700}[tier]):
+            s = sub_seed(seed, k, "C07sim")
+            rng = random.Random(s)
+            scen = scenario.normalize(scenario.gen_scenario(rng, max_jobs=9, min_jobs=4, shapes=["random", "diamond", "fanin", "chain"], fail_p=0.5))
+            for g in scen["groups"]:
+                g["try_add"] = True
+                g["batch"] = rng.randint(2, 3)
+            t = sim_task(scen, s, len(out))
+            if k % 2:
+                scen["resubmit"] = {"rounds": [{"failed": True, "missing": True, "successful": rng.random() < 0.3}]}
+                t["args"]["cls"] = "sim.resub:ResubSim"
+            out.append(t)
         return out
+
+    zygote = True
 
     also = ("C01",)
 
     def exhaustive(self, tier, tasks, results):
         # true for the enumerated sub-scope (reported separately in the counters); the random part is sampling
-        return all(not r.get("error") for t, r in zip(tasks, results) if t["args"]["scope"] != "random")
+        return all(not r.get("error") for t, r in zip(tasks, results) if t["fn"] != "sim" and t["args"]["scope"] != "random")
 
     def counters(self, tasks, results):
-        en = [(t, r) for t, r in zip(tasks, results) if t["args"]["scope"] != "random" and not r.get("error")]
-        rn = [(t, r) for t, r in zip(tasks, results) if t["args"]["scope"] == "random" and not r.get("error")]
+        sims = [r for t, r in zip(tasks, results) if t["fn"] == "sim" and not r.get("error")]
+        pairs = [(t, r) for t, r in zip(tasks, results) if t["fn"] != "sim"]
+        en = [(t, r) for t, r in pairs if t["args"]["scope"] != "random" and not r.get("error")]
+        rn = [(t, r) for t, r in pairs if t["args"]["scope"] == "random" and not r.get("error")]
         return {
+            "simulated_submissions": len(sims),
+            "of_which_with_a_resubmission": sum(1 for r in sims if (r.get("epochs") or 1) > 1),
+            "batches_checked_at_the_simulated_sbatch": sum(r.get("sbatches") or 0 for r in sims),
             "exhaustive_scope": sorted({t["args"]["scope"] for t, _ in en}),
             "exhaustive_scope_meaning": {"q3": "all job lists of <= 3 jobs, 9-point grid", "f3": "all job lists of <= 3 jobs, 20-point grid", "n4": "all job lists of 4 jobs, 12-point grid"},
             "enumerated_cases": sum(r["cases"] for _, r in en),
